@@ -209,7 +209,10 @@ macro_rules! impl_rank_small_sel {
                     .as_ref()
                     .chunks(Self::SUPERBLOCK_BIT_SIZE / usize::BITS as usize)
                 {
-                    let mut first = true;
+                    // Every superblock has an entry, even if it contains no
+                    // inventory element: the selection methods compare the
+                    // indices in this vector with superblock indices.
+                    inventory_begin.push(inventory.len());
                     for (i, word) in superblock.iter().copied().enumerate() {
                         // Bits beyond the length (in the last word, or in further words of
                         // the backend) are arbitrary, so they must not be counted
@@ -218,10 +221,6 @@ macro_rules! impl_rank_small_sel {
                         while past_ones + ones_in_word > next_quantum {
                             let in_word_index = word.select_in_word(next_quantum - past_ones);
                             let in_superblock_index = i * usize::BITS as usize + in_word_index;
-                            if first {
-                                inventory_begin.push(inventory.len());
-                                first = false;
-                            }
                             inventory.push(in_superblock_index as u32);
                             next_quantum += ones_per_inventory;
                         }
